@@ -43,6 +43,11 @@ type Case struct {
 	// QueryMS: milliseconds added to the query time (state timestamps have
 	// whole seconds; a query a fraction of a second after a state lies after it).
 	QueryMS int
+	// Refuse > 0: the state file of the Refuse-th existing sequence number
+	// (modulo) is answered with RefuseStatus (403, 408, 429): a refusal is not a
+	// missing file.
+	Refuse       int
+	RefuseStatus int
 }
 
 var qzones = []*time.Location{time.UTC, time.FixedZone("", 3600), time.FixedZone("", 0), time.FixedZone("", -(5*3600 + 1800))}
@@ -57,6 +62,8 @@ type server struct {
 	n       int
 	budget  int
 	badPath string
+	refuse  uint64 // sequence number answered with a refusal (0 = none)
+	refused int    // refusals served
 }
 
 var errBudget = errors.New("harness: request budget exceeded")
@@ -100,6 +107,10 @@ func (s *server) respond(path string) (int, string) {
 	ts, ok := s.states[seq]
 	if !ok {
 		return 404, "not found"
+	}
+	if s.refuse != 0 && seq == s.refuse && !current {
+		s.refused++
+		return s.c.RefuseStatus, "try again later"
 	}
 	if s.c.Kind == 3 {
 		// the planet's changeset state: the number inside is one less than the file name
@@ -197,6 +208,17 @@ func check(c Case) error {
 		}
 	}
 	srv := &server{c: &c, states: states, cur: cur}
+	if c.Refuse > 0 {
+		var have []uint64
+		for s := uint64(1); s < cur; s++ {
+			if _, ok := states[s]; ok {
+				have = append(have, s)
+			}
+		}
+		if len(have) > 0 {
+			srv.refuse = have[c.Refuse%len(have)]
+		}
+	}
 	srv.budget = 8*(bits.Len64(cur)+2) + 4*missing + 16
 	if c.First > 2000 {
 		// far sequence numbers are only generated gap-free with the query after the
@@ -244,6 +266,14 @@ func check(c Case) error {
 	}
 	if srv.badPath != "" {
 		return harness.Failf("C19/request-path", "request %q is not a planet-layout state URL under %s/replication/%s/", srv.badPath, c.Prefix, dirs[c.Kind])
+	}
+	if srv.refused > 0 {
+		// the lookup ran into the refused file: it cannot know that state and
+		// must fail (with an error that is not a not-found)
+		if err == nil {
+			return harness.Failf("C19/refusal-treated-as-missing", "state file %d was answered with status %d during the lookup, which nevertheless succeeded with sequence %d", srv.refuse, c.RefuseStatus, seq)
+		}
+		return nil
 	}
 	if srv.n >= srv.budget || errors.Is(err, errBudget) {
 		return harness.Failf("C19/too-many-requests", "lookup of t=%ds in %s states %d..%d (%d missing files) issued %d requests without finishing; budget = %d", c.Query, dirs[c.Kind], c.First, cur, missing, srv.n, srv.budget)
@@ -354,6 +384,10 @@ func genCase(t *rapid.T) Case {
 	c.Prefix = rapid.SampledFrom([]string{"", "", "/mirror/osm"}).Draw(t, "prefix")
 	c.QZone = rapid.SampledFrom([]int{0, 0, 1, 2, 3}).Draw(t, "qzone")
 	c.QueryMS = rapid.SampledFrom([]int{0, 0, 1, 500, 999}).Draw(t, "queryMS")
+	if rapid.IntRange(0, 5).Draw(t, "refuse?") == 0 {
+		c.Refuse = rapid.IntRange(1, 100).Draw(t, "refuse")
+		c.RefuseStatus = rapid.SampledFrom([]int{403, 408, 429, 401}).Draw(t, "refuseStatus")
+	}
 	if c.Kind != 3 && rapid.IntRange(0, 7).Draw(t, "bigLine?") == 0 {
 		c.BigLine = rapid.SampledFrom([]int{4000, 65000, 65536, 70000, 200000}).Draw(t, "bigLine")
 	}
@@ -366,7 +400,7 @@ func genCase(t *rapid.T) Case {
 func TestStateAt(t *testing.T) {
 	harness.Run(t, harness.Spec[Case]{
 		Name: "state-at", N: 10000,
-		Rule:  "replication directories served by an in-process http.RoundTripper: kind in {minute,hour,day,changesets}; sequence range [first,cur] with a missing prefix of any length (first up to 3 000 000, also around the 999/1000 path boundary); strictly increasing irregular timestamps; missing-file patterns none / isolated / runs / dense / sparse; query before all, between, equal to a state's timestamp, after all, 40% of them 1, 500 or 999 ms past a whole second; planet layouts (sequenceNumber=/timestamp= with escaped colons, extra lines in three orders; changeset YAML with last_run/sequence and the off-by-one number - a third of the changeset directories with numbered files that carry their own number, as the planet's files before 2008004 -, two time layouts; one interval directory in eight with a leading txnActiveList line of 4 KB..200 KB), the query instant also passed in a non-UTC location (same answer and same number of requests), optional base-URL path prefix; oracle = first available state with timestamp >= t (cur if later than all), every request path exactly /replication/<dir>/state.{txt,yaml} or /AAA/BBB/CCC.state.txt, returned number = file name, request count <= 8*(ceil(log2(cur))+2)+4*missing+16 (far, gap-free directories: 8*L+2*L^2+16 with L=log2(cur)+2, the missing prefix need not be stepped over there); non-trivial = a missing file strictly inside [first,cur]",
+		Rule:  "replication directories served by an in-process http.RoundTripper: kind in {minute,hour,day,changesets}; sequence range [first,cur] with a missing prefix of any length (first up to 3 000 000, also around the 999/1000 path boundary); strictly increasing irregular timestamps; missing-file patterns none / isolated / runs / dense / sparse; query before all, between, equal to a state's timestamp, after all, 40% of them 1, 500 or 999 ms past a whole second; planet layouts (sequenceNumber=/timestamp= with escaped colons, extra lines in three orders; changeset YAML with last_run/sequence and the off-by-one number - a third of the changeset directories with numbered files that carry their own number, as the planet's files before 2008004 -, two time layouts; one interval directory in eight with a leading txnActiveList line of 4 KB..200 KB), the query instant also passed in a non-UTC location (same answer and same number of requests), optional base-URL path prefix; in one case in six one existing state file is answered with 401/403/408/429 (if the lookup runs into it, it must fail); oracle = first available state with timestamp >= t (cur if later than all), every request path exactly /replication/<dir>/state.{txt,yaml} or /AAA/BBB/CCC.state.txt, returned number = file name, request count <= 8*(ceil(log2(cur))+2)+4*missing+16 (far, gap-free directories: 8*L+2*L^2+16 with L=log2(cur)+2, the missing prefix need not be stepped over there); non-trivial = a missing file strictly inside [first,cur]",
 		Gen:   genCase,
 		Check: check,
 		Classify: func(c Case) (bool, []string) {
